@@ -462,36 +462,36 @@ func jsonStr(v any) string {
 	return string(b)
 }
 
-func TestC15(t *testing.T) {
-	rapid.Check(t, func(t *rapid.T) {
-		o := jGenOpts{MaxTrips: 6, MaxFeeds: 10, Collisions: rapid.Bool().Draw(t, "collisions")}
-		if tierThorough() {
-			o.MaxFeeds = 20
+func TestC15(t *testing.T) { rapid.Check(t, propC15) }
+
+func propC15(t *rapid.T) {
+	o := jGenOpts{MaxTrips: 6, MaxFeeds: 10, Collisions: rapid.Bool().Draw(t, "collisions")}
+	if tierThorough() {
+		o.MaxFeeds = 20
+	}
+	if rapid.IntRange(0, 3).Draw(t, "wideWindow") == 0 {
+		o.InsideWindow = true
+	}
+	h, ops := genHistory(t, o)
+	var cls []string
+	for k := range ops {
+		cls = append(cls, k)
+	}
+	uids := map[string]int{}
+	for _, d := range h.Pool {
+		uids[d.uid()]++
+	}
+	for _, c := range uids {
+		if c > 1 {
+			cls = append(cls, "uid-collision")
 		}
-		if rapid.IntRange(0, 3).Draw(t, "wideWindow") == 0 {
-			o.InsideWindow = true
-		}
-		h, ops := genHistory(t, o)
-		var cls []string
-		for k := range ops {
-			cls = append(cls, k)
-		}
-		uids := map[string]int{}
-		for _, d := range h.Pool {
-			uids[d.uid()]++
-		}
-		for _, c := range uids {
-			if c > 1 {
-				cls = append(cls, "uid-collision")
-			}
-		}
-		sort.Strings(cls)
-		c15Rec.Eval(dedupe(cls)...)
-		if len(h.Pool) >= 2 && (ops["reappear"] > 0 || ops["unassigned-then-assigned"] > 0 || ops["assigned-then-unassigned-update"] > 0 || ops["boundary-window"] > 0) {
-			c15Rec.NontrivialCase(vt.Fingerprint(h), func() any { return h })
-		}
-		vt.Run(t, c15Rec, *h, checkC15)
-	})
+	}
+	sort.Strings(cls)
+	c15Rec.Eval(dedupe(cls)...)
+	if len(h.Pool) >= 2 && (ops["reappear"] > 0 || ops["unassigned-then-assigned"] > 0 || ops["assigned-then-unassigned-update"] > 0 || ops["boundary-window"] > 0) {
+		c15Rec.NontrivialCase(vt.Fingerprint(h), func() any { return h })
+	}
+	vt.Run(t, c15Rec, *h, checkC15)
 }
 
 // ---------------------------------------------------------------------------------------------
@@ -646,37 +646,37 @@ func checkC14(h History) error {
 	return nil
 }
 
-func TestC14(t *testing.T) {
-	rapid.Check(t, func(t *rapid.T) {
-		o := jGenOpts{MaxTrips: 3, MaxFeeds: 12, AlwaysAssigned: true, InsideWindow: true}
-		if tierThorough() {
-			o.MaxFeeds = 25
-		}
-		h, ops := genHistory(t, o)
-		var cls []string
-		for k := range ops {
-			cls = append(cls, k)
-		}
-		repeated := false
-		for _, f := range h.Feeds {
-			for _, u := range f.Updates {
-				seen := map[string]bool{}
-				for _, s := range u.Stops {
-					if seen[s.StopID] {
-						repeated = true
-					}
-					seen[s.StopID] = true
+func TestC14(t *testing.T) { rapid.Check(t, propC14) }
+
+func propC14(t *rapid.T) {
+	o := jGenOpts{MaxTrips: 3, MaxFeeds: 12, AlwaysAssigned: true, InsideWindow: true}
+	if tierThorough() {
+		o.MaxFeeds = 25
+	}
+	h, ops := genHistory(t, o)
+	var cls []string
+	for k := range ops {
+		cls = append(cls, k)
+	}
+	repeated := false
+	for _, f := range h.Feeds {
+		for _, u := range f.Updates {
+			seen := map[string]bool{}
+			for _, s := range u.Stops {
+				if seen[s.StopID] {
+					repeated = true
 				}
+				seen[s.StopID] = true
 			}
 		}
-		if repeated {
-			cls = append(cls, "repeated-stop")
-		}
-		sort.Strings(cls)
-		c14Rec.Eval(cls...)
-		if len(h.Feeds) >= 3 && ops["front-shrink"] > 0 && (ops["reroute"] > 0 || ops["growth"] > 0) {
-			c14Rec.NontrivialCase(vt.Fingerprint(h), func() any { return h })
-		}
-		vt.Run(t, c14Rec, *h, checkC14)
-	})
+	}
+	if repeated {
+		cls = append(cls, "repeated-stop")
+	}
+	sort.Strings(cls)
+	c14Rec.Eval(cls...)
+	if len(h.Feeds) >= 3 && ops["front-shrink"] > 0 && (ops["reroute"] > 0 || ops["growth"] > 0) {
+		c14Rec.NontrivialCase(vt.Fingerprint(h), func() any { return h })
+	}
+	vt.Run(t, c14Rec, *h, checkC14)
 }
